@@ -60,7 +60,7 @@ the closed set — generating its namespace into the same output directory produ
 theorem C06_include_closure (lang : Lang) (pcfg : Namespace.Cfg) (o : Opts) (U : List Top) (hU : Closed U)
     (t : Top) (ht : t ∈ U) (incs : List Str) (h : emitted lang pcfg o t = .ok incs) :
     ∀ inc ∈ incs,
-      (inc ∈ cStd o (direct t) ++ cOmitBlock o ++ cppGetIncludes o (direct t) ++ [hCstdint])
+      (inc ∈ cStd o (direct t) ++ cOmitBlock o ++ cppGetIncludes o (direct t) ++ cppUnionBlock o t ++ [hCstdint])
       ∨ (o.omitSer = false ∧ ∃ s ∈ o.support, inc = punct o s)
       ∨ (∃ n ∈ (direct t).names, ∃ rel, includePath pcfg n = .ok rel ∧ inc = punct o (asPosix rel)
           ∧ outputPath pcfg n = .ok (pathJoin (basePath pcfg) rel)
@@ -87,9 +87,11 @@ theorem C06_include_closure (lang : Lang) (pcfg : Namespace.Cfg) (o : Opts) (U :
   | cpp =>
     obtain ⟨ps, l, hps, hmem, rfl⟩ := emitted_cpp_inv h
     rcases List.mem_append.mp hinc with hl | hb
-    · rcases (hmem inc).mp hl with hp | hp
-      · exact Or.inr (key ps hps hp)
-      · exact Or.inl (by simp [hp])
+    · rcases List.mem_append.mp hl with hl | hu
+      · rcases (hmem inc).mp hl with hp | hp
+        · exact Or.inr (key ps hps hp)
+        · exact Or.inl (by simp [hp])
+      · exact Or.inl (by simp [hu])
     · simp only [cppPortBlock] at hb
       split at hb
       · simp at hb; exact Or.inl (by simp [hb])
@@ -207,11 +209,15 @@ theorem C06_facilities_covered_cpp (pcfg : Namespace.Cfg) (o : Opts) (t : Top) (
     (incs : List Str) (h : emitted .cpp pcfg o t = .ok incs) :
     ∀ f ∈ facilities .cpp o t, covered .cpp o incs f = true := by
   intro f hf
-  obtain ⟨ps, l, hps, hmem, rfl⟩ := emitted_cpp_inv h
-  have hstd : ∀ n, n ∈ cppStdNames o (direct t) → angle n ∈ l ++ cppPortBlock t.fixedPort l := fun n hn =>
-    List.mem_append.mpr (Or.inl ((hmem _).mpr (Or.inr (mem_cppGetIncludes_std hn))))
+  obtain ⟨ps, l, hps, hmem, heq⟩ := emitted_cpp_inv h
+  have inL : ∀ x, x ∈ l → x ∈ incs := fun x hx => by
+    rw [heq]; exact List.mem_append.mpr (Or.inl (List.mem_append.mpr (Or.inl hx)))
+  have inU : ∀ x, x ∈ cppUnionBlock o t → x ∈ incs := fun x hx => by
+    rw [heq]; exact List.mem_append.mpr (Or.inl (List.mem_append.mpr (Or.inr hx)))
+  have hstd : ∀ n, n ∈ cppStdNames o (direct t) → angle n ∈ incs := fun n hn =>
+    inL _ ((hmem _).mpr (Or.inr (mem_cppGetIncludes_std hn)))
   have hlimits : lit "limits" ∈ cppStdNames o (direct t) := by simp [cppStdNames]
-  have cov_limits : ∀ g, (g = Fac.xLimits ∨ g = Fac.xSizeT) → covered .cpp o (l ++ cppPortBlock t.fixedPort l) g = true := by
+  have cov_limits : ∀ g, (g = Fac.xLimits ∨ g = Fac.xSizeT) → covered .cpp o incs g = true := by
     intro g hg
     have := hstd _ hlimits
     rw [angle_limits] at this
@@ -219,7 +225,7 @@ theorem C06_facilities_covered_cpp (pcfg : Namespace.Cfg) (o : Opts) (t : Top) (
     · exact covered_of_mem this (provides_of_std std_limits_limits)
     · exact covered_of_mem this (provides_of_std std_limits_sizeT)
   -- a facility of a field / constant declaration
-  have cov_decl : ∀ ty, ty ∈ t.dataTypes → f ∈ xTyFac o ty → covered .cpp o (l ++ cppPortBlock t.fixedPort l) f = true := by
+  have cov_decl : ∀ ty, ty ∈ t.dataTypes → f ∈ xTyFac o ty → covered .cpp o incs f = true := by
     intro ty hty hfty
     have hflag := direct_flag hty hfty
     rcases xTyFac_kinds o ty f hfty with hk | hk | hk | hk <;> subst hk
@@ -238,36 +244,31 @@ theorem C06_facilities_covered_cpp (pcfg : Namespace.Cfg) (o : Opts) (t : Top) (
       exact covered_of_mem this (provides_of_std std_bitset)
     · simp only [xFlag] at hflag
       have hne := hok.vla hflag
-      have : o.vlaInc ∈ l ++ cppPortBlock t.fixedPort l :=
-        List.mem_append.mpr (Or.inl ((hmem _).mpr (Or.inr (mem_cppGetIncludes_vla hne hflag))))
-      exact covered_of_mem this (provides_vla hne (Or.inl rfl))
+      exact covered_of_mem (inL _ ((hmem _).mpr (Or.inr (mem_cppGetIncludes_vla hne hflag)))) (provides_vla hne (Or.inl rfl))
   -- the allocator include
-  have cov_alloc : o.allocCtor = true → (f = .xAlloc ∨ f = .xUtility ∨ f = .xMemory) →
-      covered .cpp o (l ++ cppPortBlock t.fixedPort l) f = true := by
+  have cov_alloc : o.allocCtor = true → (f = .xAlloc ∨ f = .xUtility ∨ f = .xMemory) → covered .cpp o incs f = true := by
     intro ha hfa
     have hne := hok.alloc ha
-    have : o.allocInc ∈ l ++ cppPortBlock t.fixedPort l :=
-      List.mem_append.mpr (Or.inl ((hmem _).mpr (Or.inr (mem_cppGetIncludes_alloc hne))))
-    exact covered_of_mem this (provides_alloc hne hfa)
-  -- the headers of a union
-  have cov_union : ∀ c ∈ t.parts, c.isUnion = true → ∀ n hdr : Str, angle n = hdr → stdProvides hdr f = true →
-      n ∈ (if hasVariant o then [lit "type_traits", lit "variant"] else [lit "memory", lit "new", lit "type_traits", lit "utility"]) →
-      covered .cpp o (l ++ cppPortBlock t.fixedPort l) f = true := by
-    intro c hc hu n hdr hg hp hn
+    exact covered_of_mem (inL _ ((hmem _).mpr (Or.inr (mem_cppGetIncludes_alloc hne)))) (provides_alloc hne hfa)
+  -- the headers of a union: `<variant>` from get_includes, the rest from the block of base.j2
+  have cov_variant : ∀ c ∈ t.parts, c.isUnion = true → hasVariant o = true → f = .xVariant → covered .cpp o incs f = true := by
+    intro c hc hu hv hf'
     have huu := direct_usesUnion (part_isUnion_definesUnion hc hu)
-    have hn' : n ∈ cppStdNames o (direct t) := by
-      simp only [cppStdNames, List.mem_append]
-      exact Or.inr (by simpa [huu] using hn)
-    have := hstd _ hn'; rw [hg] at this
-    exact covered_of_mem this (provides_of_std hp)
+    have hn' : lit "variant" ∈ cppStdNames o (direct t) := by simp [cppStdNames, huu, hv]
+    have := hstd _ hn'; rw [angle_variant] at this
+    subst hf'
+    exact covered_of_mem this (provides_of_std std_variant)
+  have cov_union : ∀ c ∈ t.parts, c.isUnion = true → ∀ hdr : Str, stdProvides hdr f = true →
+      hdr ∈ lit "<type_traits>" :: (if hasVariant o then [] else [lit "<memory>", lit "<new>", lit "<utility>"]) →
+      covered .cpp o incs f = true := by
+    intro c hc hu hdr hp hn
+    have hd := part_isUnion_definesUnion hc hu
+    exact covered_of_mem (inU hdr (by simpa [cppUnionBlock, hd] using hn)) (provides_of_std hp)
   -- the support header
-  have cov_support : o.omitSer = false → supportProvides .cpp f = true →
-      covered .cpp o (l ++ cppPortBlock t.fixedPort l) f = true := by
+  have cov_support : o.omitSer = false → supportProvides .cpp f = true → covered .cpp o incs f = true := by
     intro ho hsp
     obtain ⟨s, hs'⟩ := List.exists_mem_of_ne_nil _ (hok.support ho)
-    have : punct o s ∈ l ++ cppPortBlock t.fixedPort l :=
-      List.mem_append.mpr (Or.inl ((hmem _).mpr (Or.inl (pathIncludes_support hps ho hs'))))
-    exact covered_of_mem this (provides_of_support ho hs' hsp)
+    exact covered_of_mem (inL _ ((hmem _).mpr (Or.inl (pathIncludes_support hps ho hs')))) (provides_of_support ho hs' hsp)
   simp only [facilities, facMust, facMay, List.mem_append, List.mem_flatMap] at hf
   rcases hf with (⟨c, hc, hfc⟩ | hf) | (⟨c, hc, hfc⟩ | hf)
   · -- certainly used by the definition of part `c`
@@ -275,16 +276,17 @@ theorem C06_facilities_covered_cpp (pcfg : Namespace.Cfg) (o : Opts) (t : Top) (
     · exact cov_limits f (Or.inr hk)
     · exact cov_limits f (Or.inl hk)
     · -- the fixed port-ID
-      subst hk; rw [hp]
-      exact covered_of_mem (cstdint_of_fixedPort l) (provides_of_std std_cstdint)
+      subst hk
+      have : hCstdint ∈ incs := by rw [heq, hp]; exact cstdint_of_fixedPort l _
+      exact covered_of_mem this (provides_of_std std_cstdint)
     · exact cov_decl ty (part_fields_dataTypes hc hty) hfty
     · rcases hk with hk | hk <;> subst hk
-      · exact cov_union c hc hu (lit "variant") (lit "<variant>") angle_variant std_variant (by simp [hv])
-      · exact cov_union c hc hu (lit "type_traits") (lit "<type_traits>") angle_type_traits std_type_traits (by simp [hv])
+      · exact cov_variant c hc hu hv rfl
+      · exact cov_union c hc hu (lit "<type_traits>") std_type_traits (by simp)
     · rcases hk with hk | hk | hk <;> subst hk
-      · exact cov_union c hc hu (lit "type_traits") (lit "<type_traits>") angle_type_traits std_type_traits (by simp [hv])
-      · exact cov_union c hc hu (lit "utility") (lit "<utility>") angle_utility std_utility (by simp [hv])
-      · exact cov_union c hc hu (lit "new") (lit "<new>") angle_new std_new (by simp [hv])
+      · exact cov_union c hc hu (lit "<type_traits>") std_type_traits (by simp)
+      · exact cov_union c hc hu (lit "<utility>") std_utility (by simp [hv])
+      · exact cov_union c hc hu (lit "<new>") std_new (by simp [hv])
     · exact cov_alloc ha (Or.inl hk)
   · -- `nunavut::support`
     by_cases ho : o.omitSer = true
@@ -295,7 +297,7 @@ theorem C06_facilities_covered_cpp (pcfg : Namespace.Cfg) (o : Opts) (t : Top) (
   · -- possibly used by the definition of part `c`
     rcases mem_xCompMay hfc with ⟨hu, hv, hk⟩ | ⟨ha, hk⟩
     · subst hk
-      exact cov_union c hc hu (lit "memory") (lit "<memory>") angle_memory std_memory (by simp [hv])
+      exact cov_union c hc hu (lit "<memory>") std_memory (by simp [hv])
     · exact cov_alloc ha (Or.inr hk)
   · -- possibly used by the serialization functions
     by_cases ho : o.omitSer = true
